@@ -718,7 +718,8 @@ def rule_victim_search_attained(ctx: Ctx) -> None:
             if not cpath or not cpath.startswith("self."):
                 continue
             for t_ in [x for b_ in lp.body for x in ast.walk(b_) if isinstance(x, ast.If)]:
-                if not any(isinstance(y, ast.Return) and y.value is not None for b2 in t_.body for y in ast.walk(b2)):
+                # the search ends at the match: `return key` inside the loop, or `break` (the victim is then handled after the loop)
+                if not any((isinstance(y, ast.Return) and y.value is not None) or isinstance(y, ast.Break) for b2 in t_.body for y in ast.walk(b2)):
                     continue
                 cmp_ = t_.test
                 if not (isinstance(cmp_, ast.Compare) and len(cmp_.ops) == 1 and isinstance(cmp_.ops[0], ast.Eq)):
